@@ -247,6 +247,18 @@ func driveCookieStore(t *testing.T, out *vEmitter) {
 			}
 			vSaveLoadStep(t, out, r, s, c, vNewBrowser(c.host, c.opts.Secure, c.opts.Path), ops, "history")
 		}
+		// --- histories in which a save and a clear share one response (after a small or a large session, then more saves)
+		for h := 0; h < vPick(12, 120); h++ {
+			first := lens[r.Intn(len(lens))]
+			if h%2 == 0 {
+				first = 20 + r.Intn(100) // a single cookie in the jar before the save-then-clear
+			}
+			ops := []int{first, -2}
+			if h%3 == 0 {
+				ops = append(ops, lens[r.Intn(len(lens))], -2, -1)
+			}
+			vSaveLoadStep(t, out, r, s, c, vNewBrowser(c.host, c.opts.Secure, c.opts.Path), ops, "history-same-response")
+		}
 		// --- session-level round trip through the real Save/Load (oracle only)
 		vSessionRoundTrips(t, out, r, s, c)
 	}
@@ -260,10 +272,19 @@ func vSaveLoadStep(t *testing.T, out *vEmitter, r *rand.Rand, s *SessionStore, c
 	name := c.opts.Name
 	var last []byte
 	var jops []vsx
+	jarModelOff := false
+	for _, n := range ops {
+		if n == -2 {
+			jarModelOff = true
+		}
+	}
 	defer func() {
 		// the whole history through the jar model (Model/JarSession.jar_run from the empty jar) against
 		// what the real net/http/cookiejar holds at the end
 		if c.opts.Expire != 0 && c.opts.Expire <= 40*time.Second {
+			return
+		}
+		if jarModelOff {
 			return
 		}
 		var have [][2]string
@@ -291,7 +312,28 @@ func vSaveLoadStep(t *testing.T, out *vEmitter, r *rand.Rand, s *SessionStore, c
 			vAddMac(macs, secret, name, pc.Value)
 		}
 		rw := httptest.NewRecorder()
-		if n < 0 {
+		if n == -2 {
+			// a save and a clear on ONE response (a refresh whose result is then refused, a sign-out after a refresh): the
+			// clear must also delete what the save has just set, under whatever names
+			val := vRandBytes(r, 200+r.Intn(9000))
+			created := time.Now().Truncate(time.Second)
+			if err := s.setSessionCookie(rw, req, val, created); err != nil {
+				t.Fatal(err)
+			}
+			saved := vHeaders(rw)
+			var already []vsx
+			for _, h := range saved {
+				already = append(already, vS(strings.SplitN(h, "=", 2)[0]))
+			}
+			if err := s.Clear(rw, req); err != nil {
+				t.Fatal(err)
+			}
+			out.Case(label+"/save-then-clear", true, vStrs(vHeaders(rw)[len(saved):]),
+				vL("cs_clear", vCfgSX(c.opts), vS(c.host), vCookiesSX(presented), vL(already...)))
+			out.Stat("save_then_clear_on_one_response", 1)
+			last = nil
+			jops = nil // not a history of the jar model's operations any more
+		} else if n < 0 {
 			if err := s.Clear(rw, req); err != nil {
 				t.Fatal(err)
 			}
